@@ -148,7 +148,11 @@ def run_property(modname: str, tier: str, seed: int, replay: str | None = None) 
     seen_known = Counter()
 
     def handle_failure(c: Case, why: str):
-        fid = mod.classify(c) if hasattr(mod, "classify") else None
+        try:
+            fid = mod.classify(c) if hasattr(mod, "classify") else None
+        except Exception as e:  # noqa: BLE001 - a matcher that cannot judge the case excuses nothing
+            fid = None
+            notes.append(f"classify raised {type(e).__name__} on a failing case: reported as a violation")
         if fid and fid in findings:
             seen_known[fid] += 1
             return
